@@ -115,6 +115,59 @@ AuxOK(e, k, cfg, rd, M) ==
              IF ms = <<>> THEN rd.obs.wild = <<>>
              ELSE rd.obs.wild = << <<AuxWild(m, AdSeqOf(cfg, m.ad), searched), M.o1.name>> >>)
 
+\* ---- blame: which modifier of the recorded chain (the read pair after every modifier of a one-core run)
+\* deviates *locally* from its specification, given the input it actually received.  Used by the harness to
+\* attribute an end-to-end deviation to the property that owns the deviating stage (a check does not report
+\* a deviation that another property's stage explains).  Printed, never a verdict by itself. ----
+Rd0(s, q) == [name |-> <<>>, seq |-> s, qual |-> q]
+StageApply(lab, arg, cfg, r, second) ==
+  CASE lab = "cut" -> CutOne(r, arg)
+    [] lab = "nextseq" -> NextSeqStage(r, cfg.nextseq, cfg.qbase)
+    [] lab = "qtrim" -> QualStage(r, IF second THEN cfg.q2 ELSE cfg.q1, cfg.qbase)
+    [] lab = "polya" -> PolyAStage(r, second)
+    [] lab = "shorten" -> ShortenStage(r, (IF second THEN cfg.len2 ELSE cfg.len1).n)
+    [] lab = "trimn" -> TrimNStage(r)
+    [] lab = "zerocap" -> IF r.qual = <<>> THEN r ELSE ZeroCapStage(r, cfg.qbase)
+    [] OTHER -> r
+ProjMatch(m) == <<m.name, IF m.hasF THEN m.f.rs ELSE -1, IF m.hasF THEN m.f.re ELSE -1,
+                  IF m.hasB THEN m.b.rs ELSE -1, IF m.hasB THEN m.b.re ELSE -1>>
+ProjMatches(ms) == [j \in 1..Len(ms) |-> ProjMatch(ms[j])]
+ObsMatches(m) == [j \in 1..Len(m) |-> <<m[j][1], m[j][2], m[j][3], m[j][4], m[j][5]>>]
+
+AdapterBlame(cfg, table, p1, p2, st) ==
+  IF cfg.paired
+  THEN IF NeedsPE(cfg, table, p1, p2) # {} THEN {}
+       ELSE LET x == StagePE(cfg, table, p1, p2) IN
+            IF cfg.revcomp /\ st.isrc >= 0 /\ (st.isrc = 1) # x.isrc THEN {"orient"}
+            ELSE IF x.r1.seq # st.s1 \/ x.r1.qual # st.q1 \/ x.r2.seq # st.s2 \/ x.r2.qual # st.q2 THEN {"adapter"} ELSE {}
+  ELSE LET ori == IF st.isrc = 1 THEN RevCompRead(p1) ELSE p1 IN
+       IF cfg.ads1 = <<>> \/ NeedsSE(cfg, table, p1) # {} \/ NeedsCut1(table, cfg.ads1, cfg.action, cfg.times, ori) # {} THEN {}
+       ELSE LET c1 == Cut1(table, cfg.ads1, cfg.action, cfg.times, ori)
+                decision == IF cfg.revcomp THEN CutRevComp(table, cfg.ads1, cfg.action, cfg.times, p1)[3] ELSE FALSE
+                choiceOK == ~st.hasm \/ ObsMatches(st.m1) = ProjMatches(c1[2])
+                actionOK == c1[1].seq = st.s1 /\ c1[1].qual = st.q1
+            IN (IF cfg.revcomp /\ st.isrc >= 0 /\ (st.isrc = 1) # decision THEN {"orient"} ELSE {})
+               \cup (IF ~choiceOK THEN {"choice"}
+                     ELSE IF ~actionOK THEN (IF st.hasm THEN {"action"} ELSE {"adapter"}) ELSE {})
+
+RECURSIVE BlameFrom(_, _, _, _, _, _)
+BlameFrom(cfg, table, chain, i, p1, p2) ==
+  IF i > Len(chain) THEN {}
+  ELSE LET st == chain[i]
+           n1 == Rd0(st.s1, st.q1)
+           n2 == Rd0(st.s2, st.q2)
+           here ==
+             IF st.l1 = "adapter" \/ st.l2 = "adapter" THEN AdapterBlame(cfg, table, p1, p2, st)
+             ELSE (IF st.l1 \notin {"", "unknown"} /\ (LET x == StageApply(st.l1, st.a1, cfg, p1, FALSE) IN x.seq # st.s1 \/ x.qual # st.q1)
+                   THEN {st.l1} ELSE {})
+                  \cup (IF cfg.paired /\ st.l2 \notin {"", "unknown"} /\ (LET y == StageApply(st.l2, st.a2, cfg, p2, TRUE) IN y.seq # st.s2 \/ y.qual # st.q2)
+                        THEN {st.l2} ELSE {})
+       IN here \cup BlameFrom(cfg, table, chain, i + 1, n1, n2)
+Blame(e, k) ==
+  LET rd == e.reads[k] IN
+  BlameFrom(e.cfg, rd.table, rd.obs.chain, 1, Rd0(rd.in1.seq, rd.in1.qual), Rd0(rd.in2.seq, rd.in2.qual))
+PrintBlame(e, k) == \A b \in Blame(e, k) : PrintT(<<"BLAME", e.id, k, b>>)
+
 \* ---- one read ----
 CheckRead(e, k) ==
   LET cfg == e.cfg
@@ -124,7 +177,8 @@ CheckRead(e, k) ==
      THEN \A n \in needs : PrintT(<<"MISS", e.id, k, n[1], n[2]>>)
      ELSE LET M == Run(cfg, rd.table, rd.in1, rd.in2)
               ob == rd.obs
-          IN /\ RepK(e.id, "Dest", k, ob.dest = M.dest)
+          IN /\ PrintBlame(e, k)
+             /\ RepK(e.id, "Dest", k, ob.dest = M.dest)
              /\ RepK(e.id, "Fate", k, ob.dest # "none" \/ ~CountsAsWritten(cfg, M.fate))
              /\ (ob.dest # "none" /\ M.dest # "none") =>
                 /\ RepK(e.id, "Seq1", k, ob.o1.seq = M.o1.seq /\ ob.o1.qual = M.o1.qual)
